@@ -56,7 +56,7 @@ def cfg(n, lim, p, k, filt=(), thr=(), raw=0, api=0, ops=None):
     return s
 
 
-def random_cfg(rng, throws, maxk=4, pmax=3, p=None):
+def random_cfg(rng, throws, maxk=4, pmax=3, p=None, refs=False):
     n = rng.choice([0, 1, 1, 2, 2, 2, 3, 3])
     p = rng.randint(0, pmax) if p is None else p
     k = rng.randint(1, maxk)
@@ -72,6 +72,11 @@ def random_cfg(rng, throws, maxk=4, pmax=3, p=None):
             for it in range(1, k + 1):
                 if rng.random() < 0.3:
                     filt.append((g, it))
+    if refs and not raw:
+        # a transform behind dispenso::stage(f, 1) may hand out a reference to a result buffer it reuses (driver kind 2)
+        for g in range(1, n):
+            if ops[g - 1] == 0 and rng.random() < 0.5:
+                ops[g - 1], lim[g] = 2, 1
     thr = []
     if throws:
         for _ in range(rng.choice([1, 1, 1, 2])):
